@@ -191,14 +191,14 @@ theorem encryptP_eq (h : Query → Bytes) (cp : CurveParams) (x : ℕ) (key : By
   dsimp only
   split
   · rename_i hc; exact absurd hc hp
-  simp only [SECURITY_PARAM, Id.run_bind, labelInt_id, mulGen, pureO, Id.run_pure, challenge_id]
+  simp only [SECURITY_PARAM, Id.run_bind, labelInt_id, mulGen, pureO, Id.run_pure]
   cases Id.run (makeSlots (fun q => pure (h q)) cp x key n (labelIntP h label) (Tape.genArray tape 32).1 (param.getD 128)
               (Tape.genArray tape 32).2) with
   | none => rfl
   | some mt =>
     obtain ⟨made, tape'⟩ := mt
     dsimp only
-    simp only [Id.run_bind, Id.run_pure, challenge_id]
+    simp only [Id.run_bind, challenge_id]
     cases selectOpens (chalP h (h (.ecMulGen cp.curve x)) label (made.map Made.slot)) 0 made <;> rfl
 
 theorem labelIntP_lt {h : Query → Bytes} (hsha : ShaSized h) (label : Bytes) : labelIntP h label < 2 ^ 256 := by
